@@ -1224,7 +1224,7 @@ vbi_decode_vps(vbi_decoder *vbi, uint8_t *buf)
 		}
 
 		if (id != n->nuid) {
-			if (n->nuid != 0)
+			if (n->nuid != 0 || vbi_chsw_pending(vbi))
 				vbi_chsw_reset(vbi, id);
 
 			n->nuid = id;
@@ -1309,7 +1309,7 @@ parse_bsd(vbi_decoder *vbi, uint8_t *raw, int packet, int designation)
 				}
 
 				if (id != n->nuid) {
-					if (n->nuid != 0)
+					if (n->nuid != 0 || vbi_chsw_pending(vbi))
 						vbi_chsw_reset(vbi, id);
 
 					n->nuid = id;
@@ -1399,7 +1399,7 @@ parse_bsd(vbi_decoder *vbi, uint8_t *raw, int packet, int designation)
 				}
 
 				if (id != n->nuid) {
-					if (n->nuid != 0)
+					if (n->nuid != 0 || vbi_chsw_pending(vbi))
 						vbi_chsw_reset(vbi, id);
 
 					n->nuid = id;
